@@ -162,6 +162,19 @@ func (n *Nine) Do(step []any) (Obs, error) {
 		st := DontTouch()
 		st.Mtime = uint32(MtBase + toInt(step[2]))
 		m = &wire.Msg{Type: wire.Twstat, Fid: fid, Stat: st}
+	case "Wstat":
+		st := DontTouch()
+		st.Name = nm.Raw(toStr(step[2]))
+		if v := toInt(step[3]); v >= 0 {
+			st.Length = uint64(v)
+		}
+		if v := toInt(step[4]); v >= 0 {
+			st.Mode = uint32(v)
+		}
+		if v := toInt(step[5]); v > 0 {
+			st.Mtime = uint32(MtBase + v)
+		}
+		m = &wire.Msg{Type: wire.Twstat, Fid: fid, Stat: st}
 	case "Write":
 		b := make([]byte, toInt(step[3]))
 		for i := range b {
@@ -361,6 +374,21 @@ func (c *Case) opSig(step []any, tw Obs, pre map[int]TFid) string {
 		return fmt.Sprintf("Open:mode=%d:kind=%s", toInt(step[2]), F.Qt)
 	case "Truncate", "Chmod", "Mtime":
 		return fmt.Sprintf("%s:kind=%s", act, F.Qt)
+	case "Wstat":
+		var set []string
+		if s := toStr(step[2]); s != "" {
+			set = append(set, "rename("+nameClass([]string{strings.TrimPrefix(s, "/")})+")")
+		}
+		if toInt(step[3]) >= 0 {
+			set = append(set, "length")
+		}
+		if toInt(step[4]) >= 0 {
+			set = append(set, "mode")
+		}
+		if toInt(step[5]) > 0 {
+			set = append(set, "mtime")
+		}
+		return fmt.Sprintf("Wstat:set=%s:kind=%s", strings.Join(set, "+"), F.Qt)
 	case "Remove", "Stat":
 		return fmt.Sprintf("%s:kind=%s", act, F.Qt)
 	}
@@ -381,7 +409,10 @@ func specialStep(step []any) bool {
 		return nameClass(toStrs(step[3])) != "plain"
 	case "Create":
 		return !plainName(toStr(step[2]))
-	case "Rename": // a leading '/' means "relative to the root", inner '/' a path: both legitimate
+	case "Rename", "Wstat": // a leading '/' means "relative to the root", inner '/' a path: both legitimate
+		if toStr(step[2]) == "" {
+			return false
+		}
 		for _, c := range strings.Split(strings.TrimPrefix(toStr(step[2]), "/"), "/") {
 			if !plainName(c) {
 				return true
